@@ -4,7 +4,7 @@
    function-by-function model Model/PPrint.v and use the predicates of
    Spec/Layout.v only. *)
 From MF Require Import Lib.Base Lib.PyDict Gen.Tokens Model.Case Model.Quoter Model.PPrint
-  Spec.Layout Proofs.PPrintFacts Proofs.C16.
+  Spec.Layout Proofs.PPrintFacts Proofs.C16 Proofs.C16Breaks Proofs.C16Align Proofs.C16All.
 
 (* compute_aligned_max_indent L = (L / max 1 indent + 1) * max 1 indent, the
    first multiple of max 1 indent strictly past L (unique).  Python computes
@@ -15,10 +15,7 @@ Theorem C16_aligned_column_formula :
     compute_aligned_max_indent o L = (L / Nat.max 1 (indent o) + 1) * Nat.max 1 (indent o)
     /\ first_multiple_past (Nat.max 1 (indent o)) L (compute_aligned_max_indent o L)
     /\ (forall c, first_multiple_past (Nat.max 1 (indent o)) L c -> c = compute_aligned_max_indent o L).
-Proof.
-  intros o L. split; [exact (compute_aligned_formula o L)|]. split; [exact (compute_aligned_spec o L)|].
-  intros c Hc. exact (first_multiple_past_unique _ L _ _ (Nat.le_max_l 1 (indent o)) Hc (compute_aligned_spec o L)).
-Qed.
+Proof. exact c16_aligned_column_formula_lemma. Qed.
 Print Assumptions C16_aligned_column_formula.
 
 (* Every block opened is closed by an END at the opener's indentation and the
@@ -30,7 +27,7 @@ Theorem C16_end_matches_opener :
     quote_ok o = true -> roots_ok v = true ->
     pprint_lines o v = Ok (lines, v') ->
     laid_out (indent o) (spacer o) (end_comment o) lines.
-Proof. intros o v lines v' Hq Hr H. exact (pprint_lines_laid_out o Hq v lines v' H Hr). Qed.
+Proof. exact c16_end_matches_opener_lemma. Qed.
 Print Assumptions C16_end_matches_opener.
 
 (* Each opener, keyword/value line and END starts with exactly (nesting depth x
@@ -42,11 +39,7 @@ Theorem C16_indent_is_depth_times_indent :
     pprint_lines o v = Ok (lines, v') ->
     exists al, roots (indent o) (spacer o) (end_comment o) al /\ map snd al = lines
                /\ Forall (fun dl => at_depth (indent o) (spacer o) (fst dl) (snd dl)) al.
-Proof.
-  intros o v lines v' Hq Hr H.
-  destruct (pprint_lines_laid_out o Hq v lines v' H Hr) as (al & Hal & Hm).
-  exists al. split; [exact Hal|]. split; [exact Hm|]. exact (roots_depths _ _ _ al Hal).
-Qed.
+Proof. exact c16_indent_is_depth_times_indent_lemma. Qed.
 Print Assumptions C16_indent_is_depth_times_indent.
 
 (* With end_comment the END of every block is followed by "# " and the word of
@@ -60,12 +53,7 @@ Theorem C16_end_comment_names_type :
     /\ (forall d b, block (indent o) (spacer o) true d b ->
           exists name body, b = (d, margin (indent o) (spacer o) d ++ name) :: body
                                   ++ [(d, margin (indent o) (spacer o) d ++ Str "END # " ++ name)]).
-Proof.
-  intros o v lines v' Hq Hr He H.
-  destruct (pprint_lines_laid_out o Hq v lines v' H Hr) as (al & Hal & Hm).
-  rewrite He in Hal. exists al. split; [exact Hal|]. split; [exact Hm|].
-  intros d b Hb. inversion Hb as [d0 name body _ _ _]; subst. exists name, body. reflexivity.
-Qed.
+Proof. exact c16_end_comment_names_type_lemma. Qed.
 Print Assumptions C16_end_comment_names_type.
 
 (* The full statement is false of the implementation for a root object that is
@@ -76,12 +64,66 @@ Theorem C16_root_keyvalue_refuted :
   exists v lines v',
     layout_doc v = true /\ pprint_lines default_opts v = Ok (lines, v')
     /\ ~ laid_out (indent default_opts) (spacer default_opts) (end_comment default_opts) lines.
-Proof. exact root_keyvalue_counterexample. Qed.
+Proof. exact c16_root_keyvalue_refuted_lemma. Qed.
 Print Assumptions C16_root_keyvalue_refuted.
+
+(* Every line break of the printed text is newlinechar: the text is the lines
+   joined by newlinechar and, when no printed string (keyword, value, key or
+   value of a key-value block) and not the spacer contains LF / CR, no line
+   contains one.  (Strings or comments that themselves contain a break are the
+   exception the property text makes.) *)
+Theorem C16_every_break_is_newlinechar :
+  forall o v text v',
+    quote_ok o = true -> no_break (spacer o) = true -> break_free_roots v = true ->
+    pprint o v = Ok (text, v') ->
+    breaks_are (newlinechar o) text.
+Proof. exact c16_every_break_is_newlinechar_lemma. Qed.
+Print Assumptions C16_every_break_is_newlinechar.
+
+(* With align_values, in every object of the document (at its nesting depth d)
+   there is one column col, the first multiple of max 1 indent strictly past
+   the longest simple keyword of that object, such that every simple keyword
+   line (keywords printed on one line, each occurrence of a repeated key) is
+   margin (d+1) ++ KEYWORD ++ spaces up to col ++ value. *)
+Theorem C16_aligned_column :
+  forall o v lines v' x d c its,
+    quote_ok o = true -> align_values o = true -> roots_ok v = true ->
+    pprint_lines o v = Ok (lines, v') ->
+    (x = v \/ exists l, v = VList l /\ In x l) ->
+    object_in 0 x d (VDict c its) ->
+    exists col,
+      first_multiple_past (Nat.max 1 (indent o)) (max_length (simple_keys its)) col
+      /\ forall k w, In (k, w) its ->
+           match kind_of k w with
+           | KKeyword =>
+               exists line, In line lines /\ keyword_line (indent o) (spacer o) (S d) col (upper k) line
+           | KRepeated =>
+               forall l y, w = VList l -> In y l ->
+                 exists line, In line lines /\ keyword_line (indent o) (spacer o) (S d) col (upper k) line
+           | _ => True
+           end.
+Proof. exact c16_aligned_column_lemma. Qed.
+Print Assumptions C16_aligned_column.
+
+(* The same clause is false of the implementation inside key-value blocks
+   (METADATA, VALIDATION, VALUES, CONNECTIONOPTIONS): a key spelled like one of
+   the printer's ignored block words is left out of the column computation.
+   Entries of key-value blocks are therefore not covered by C16_aligned_column
+   (partial: the alignment of key-value blocks whose keys avoid those words is
+   exercised by the hunter only). *)
+Theorem C16_keyvalue_alignment_refuted :
+  exists lines v',
+    roots_ok kv_align_doc = true
+    /\ pprint_lines kv_align_opts kv_align_doc = Ok (lines, v')
+    /\ first_multiple_past 4 12 16
+    /\ ~ exists line, In line lines
+                      /\ keyword_line 4 (Str " ") 2 16 (add_quotes 34%N (Str "projection")) line.
+Proof. exact c16_keyvalue_alignment_refuted_lemma. Qed.
+Print Assumptions C16_keyvalue_alignment_refuted.
 
 (* the hypotheses are inhabited by a non-trivial document *)
 Example C16_guard_inhabited :
-  roots_ok example_doc = true
+  roots_ok example_doc = true /\ break_free_roots example_doc = true
   /\ exists lines v', pprint_lines (mk_opts 2 (Str " ") 39%N [10%N] true true true) example_doc = Ok (lines, v')
                       /\ length lines = 25.
-Proof. split; [vm_compute; reflexivity|]. eexists _, _. split; vm_compute; reflexivity. Qed.
+Proof. split; [vm_compute; reflexivity|]. split; [vm_compute; reflexivity|]. eexists _, _. split; vm_compute; reflexivity. Qed.
